@@ -46,13 +46,14 @@ def check_outputs(meta, run):
     return None
 
 
-def cli_case(build, mode, kind, explicit=False, early=False):
+def cli_case(build, mode, kind, explicit=False, early=False, midshow=False):
     d = tempfile.mkdtemp(prefix='c06-', dir=SCRATCH_ROOT)
     try:
         n, k = 5, 3
         with open(os.path.join(d, 'prog.py'), 'w') as fh:
             # early: the program ends before any line of a profiled function has run (e.g. while checking its arguments)
-            src = kplib.prog_text(n, k, kind, extra='crash(%r)' % kind if early else '')
+            # midshow: the program asks for an intermediate report itself (the documented profile.show()) and then goes on
+            src = kplib.prog_text(n, k, kind, extra='crash(%r)' % kind if early else ('profile.show()' if midshow else ''))
             if explicit:
                 src = src.replace('try:\n    profile\nexcept NameError:\n    def profile(f):\n        return f\n', 'from line_profiler import profile\n')
             fh.write(src)
@@ -136,11 +137,12 @@ def run(ctx):
         if crashed:
             nontrivial.add(json.dumps(meta, sort_keys=True))
     # the real command line and the explicit profiler, one process per termination kind
-    cli = [(m, k, False, False) for m in (['l', 'b', 'lm', 'lp'] if ctx.quick else list(kplib.MODES)) for k in kplib.KINDS] + [('explicit', k, True, False) for k in kplib.KINDS]
-    cli += [(m, k, x, True) for (m, x) in ([('l', False), ('explicit', True)] if ctx.quick else [(m, False) for m in kplib.MODES] + [('explicit', True)]) for k in kplib.KINDS if k != 'none']
+    cli = [(m, k, False, False, False) for m in (['l', 'b', 'lm', 'lp'] if ctx.quick else list(kplib.MODES)) for k in kplib.KINDS] + [('explicit', k, True, False, False) for k in kplib.KINDS]
+    cli += [(m, k, x, True, False) for (m, x) in ([('l', False), ('explicit', True)] if ctx.quick else [(m, False) for m in kplib.MODES] + [('explicit', True)]) for k in kplib.KINDS if k != 'none']
+    cli += [('explicit', k, True, False, True) for k in kplib.KINDS]        # an intermediate profile.show() by the program, then more work
     with cf.ThreadPoolExecutor(max_workers=12) as ex:
-        cres = list(ex.map(lambda c: cli_case(build, c[0], c[1], c[2], c[3]), cli))
-    for (mode, kind, explicit, early), r in zip(cli, cres):
+        cres = list(ex.map(lambda c: cli_case(build, *c), cli))
+    for (mode, kind, explicit, early, midshow), r in zip(cli, cres):
         lbl = explicit or kplib.MODES[mode][1]
         exp = {kplib.WORK_LINES[a] + (0 if explicit else 0): v for a, v in kplib.expected_hits(r['n'], r['k'], kind).items() if v}
         if early and kind != 'none':
@@ -166,7 +168,7 @@ def run(ctx):
             ok, why = False, dict(why, traceback_missing=r['stderr_tail'])
         if not ok:
             ctx.fail('results were not delivered by the real command line / explicit profiler for this ending',
-                     {'finding_class': None, 'cli_case': {'mode': mode, 'kind': kind, 'ends_before_any_profiled_line': early}, 'difference': why, 'real': r})
+                     {'finding_class': None, 'cli_case': {'mode': mode, 'kind': kind, 'ends_before_any_profiled_line': early, 'program_called_show_itself_before': midshow}, 'difference': why, 'real': r})
     ctx.coverage.update({
         'evaluations': len(scs) + len(cli), 'distinct_nontrivial': len(nontrivial),
         'rule': '9 run modes x {normal end, sys.exit, KeyboardInterrupt, uncaught ValueError} x crash point k of a loop of n=5 (quick: 3 points; thorough: every k in -1..n) '
